@@ -325,6 +325,10 @@ def gen_cases(tier):
                     # the outcome is already fixed: two representative continuations
                     cases.append([tname, seq + [['.', 'real']]])
                     cases.append([tname, seq + [['+', LIT(2)]]])
+                    # a later step whose own nested-T operand would fail too: the FIRST failing operation must be reported
+                    cases.append([tname, seq + [['+', {'T': [['[', LIT('zz')]]}]]])
+                    cases.append([tname, seq + [['[', {'T': [['[', LIT('zz')]]}]]])
+                    cases.append([tname, seq + [['(', [{'T': [['.', 'zz']]}], {}]]])
         cases.append([tname, []])
         extend([], 0)
     return cases
